@@ -23,6 +23,7 @@ import subprocess
 import sys
 import textwrap
 import threading
+import time
 import uuid
 
 import numpy as np
@@ -771,7 +772,10 @@ def run_free(col, scratch, tier):
 # driver
 # ------------------------------------------------------------------------------------------------
 def plan(ctx):
-    T = ctx.thorough
+    return plan_for(ctx.thorough)
+
+
+def plan_for(T):
     units = []
     for name in ("cx", "sjoin", "rowwise", "pack_partitions", "pack_to_parquet:default", "pack_to_parquet:external", "read_parquet_dask"):
         heavy = name.startswith("pack_to_parquet")
@@ -828,8 +832,13 @@ def run(ctx):
     a.sindex.covers_overlaps((0.0, 0.0, 1.0, 1.0))
     P["pts"].hilbert_distance(p=6)
 
+    budget = 2700 if ctx.thorough else 900          # seconds of exploration; afterwards units stop and report the cap
+    t_deadline = time.time() + budget
+
     def work(col, i):
         kind, name, W, bound, shard = units[i]
+        sched.DEADLINE[0] = t_deadline
+        sched.HEARTBEAT[0] = os.path.join(scratch, f"hb-{os.getpid()}")
         # ./check exports OMP_NUM_THREADS=1, which Arrow takes as the size of its CPU pool; a managed thread
         # suspended inside an Arrow filesystem callback then starves the other thread's read (harness deadlock)
         import pyarrow as pa
@@ -839,6 +848,7 @@ def run(ctx):
             run_free(col, scratch, ctx.tier)
             return
         # a lock owned by the library is a scheduling point for managed threads (a real block would hang the explorer)
+        sched.CAPPED[0] = 0
         with sched.cooperative_locks():
             if kind == "e3a":
                 run_e3a(col, scratch, name, W, bound, shard)
@@ -848,25 +858,38 @@ def run(ctx):
                 run_e3c(col, bound)
             elif kind == "packs":
                 run_two_packs(col, scratch, bound, shard)
+        col.count("units_run")
+        if sched.CAPPED[0]:
+            col.count("units_capped_by_time_budget")
+            col.note(f"capped: {kind} {name} W/scope={W} bound={bound} shard={shard}")
 
     # the free-running grid needs the cores for itself: run it first, alone
     order = [i for i, u in enumerate(units) if u[0] == "free"] + [i for i, u in enumerate(units) if u[0] != "free"]
     c0 = core.Collector()
     work(c0, order[0])
     ctx.col.merge(c0.dump())
-    rest = order[1:]
+    # the units of the quick plan (lower bounds) come first: whatever the time budget allows beyond them is explored after
+    quick_units = set(plan_for(False))
+    rest = sorted(order[1:], key=lambda i: (units[i] not in quick_units, i))
+    t_deadline = time.time() + budget
     try:
-        core.pmap(ctx, lambda col, j: work(col, rest[j]), len(rest), timeout=(3 * 3600 if ctx.thorough else 1200))
+        core.pmap(ctx, lambda col, j: work(col, rest[j]), len(rest), timeout=budget + 1500)
     except core.HarnessError as ex:
         if "timed out" not in str(ex):
             raise
-        ctx.col.violation("hang", {"engine": "pool"}, "the schedule exploration did not terminate within its time limit "
+        # slow or stuck?  every execution touches a heartbeat file
+        beats = [os.path.getmtime(os.path.join(scratch, f)) for f in os.listdir(scratch) if f.startswith("hb-")]
+        if beats and time.time() - max(beats) < 600:
+            raise core.HarnessError("schedule exploration still making progress when its time limit ran out (overloaded machine?)")
+        ctx.col.violation("hang", {"engine": "pool"}, "no managed execution finished during the last 10 minutes of the time limit "
                           "(deadlock or hang of a managed thread / kernel): " + str(ex))
     c = ctx.col.counters
     ctx.coverage_extra.update({
         "states": int(c.get("states", 0)), "transitions": int(c.get("transitions", 0)),
         "traces_validated_against_impl": int(c.get("states", 0)),
         "free_running_runs": int(c.get("free_running_runs", 0)),
+        "units_run": int(c.get("units_run", 0)), "units_capped_by_time_budget": int(c.get("units_capped_by_time_budget", 0)),
+        "time_budget_s": budget,
         "explanation": "states = complete schedules executed on the real code (each is an implementation trace); transitions = "
                        "scheduling decisions taken; deviation bound per harness in the samples; the free-running grid is a "
                        "complement (uncontrolled schedules), not part of the exhaustive claim",
